@@ -42,12 +42,31 @@ def ipv4At (d : Bytes) : IPv4Hdr :=
     flags := oct d 6 / 32, fragOff := (oct d 6 % 32) * 256 + oct d 7, ttl := oct d 8, protocol := oct d 9,
     checksum := oct d 10 * 256 + oct d 11, src := (d.drop 12).take 4, dst := (d.drop 16).take 4 }
 
-theorem decodeIPv4_eq (d : Bytes) (h : 20 ≤ d.length) : decodeIPv4 d = .ok (ipv4At d, d.drop 20) := by
-  have : ¬ d.length < 20 := by omega
-  simp (disch := omega) only [decodeIPv4, this, if_false, at?_lt, slice?_le, from?_le, ok_bind, pure_eq, ipv4At]
+theorem ihlOctets_ge (b : Nat) : 20 ≤ ihlOctets b := by
+  unfold ihlOctets; split <;> omega
+
+theorem ihlOctets_le (b : Nat) : ihlOctets b ≤ 60 := by
+  unfold ihlOctets; split <;> omega
+
+/-- closed form under the two Go guards (`len(p.data) < IPv4HLen`, `len(p.data) < hlen`): the fields at
+their positions, and the octets after the header *including its options* are handed on -/
+theorem decodeIPv4_eq (d : Bytes) (h : 20 ≤ d.length) (h2 : ihlOctets (oct d 0) ≤ d.length) :
+    decodeIPv4 d = .ok (ipv4At d, d.drop (ihlOctets (oct d 0))) := by
+  have h1 : ¬ d.length < 20 := by omega
+  have h3 : ¬ d.length < ihlOctets (oct d 0) := by omega
+  have h0 : at? d 0 = .ok (oct d 0) := at?_lt (by omega)
+  simp only [decodeIPv4, h1, if_false, h0, ok_bind, h3]
+  simp (disch := omega) only [at?_lt, slice?_le, from?_le, ok_bind, pure_eq, ipv4At]
 
 theorem decodeIPv4_short (d : Bytes) (h : d.length < 20) : decodeIPv4 d = .err .ip4Short := by
   simp [decodeIPv4, h]
+
+/-- the second guard: 20 octets are there, but fewer than the header length field announces -/
+theorem decodeIPv4_shortOpts (d : Bytes) (h : 20 ≤ d.length) (h2 : d.length < ihlOctets (oct d 0)) :
+    decodeIPv4 d = .err .ip4Short := by
+  have h1 : ¬ d.length < 20 := by omega
+  have h0 : at? d 0 = .ok (oct d 0) := at?_lt (by omega)
+  simp only [decodeIPv4, h1, if_false, h0, ok_bind, h2, if_true]
 
 /-- the IPv6 header fields at their RFC 8200 positions -/
 def ipv6At (d : Bytes) : IPv6Hdr :=
@@ -123,7 +142,9 @@ theorem bind_safe {α β : Type} {x : Res α} {f : α → Res β} (hx : Safe x) 
 theorem decodeIPv4_safe (d : Bytes) : Safe (decodeIPv4 d) := by
   by_cases h : d.length < 20
   · rw [decodeIPv4_short d h]; exact safe_err _
-  · rw [decodeIPv4_eq d (by omega)]; exact safe_ok _
+  · by_cases h2 : d.length < ihlOctets (oct d 0)
+    · rw [decodeIPv4_shortOpts d (by omega) h2]; exact safe_err _
+    · rw [decodeIPv4_eq d (by omega) (by omega)]; exact safe_ok _
 
 theorem decodeIPv6_safe (d : Bytes) : Safe (decodeIPv6 d) := by
   by_cases h : d.length < 40
